@@ -86,6 +86,22 @@ pub struct Scenario {
     /// use the async dispatcher (C15 scenarios)
     #[serde(default)]
     pub asyncd: bool,
+    /// operations between the first `setup` and the first dispatch (C13)
+    #[serde(default)]
+    pub lifecycle: Vec<LifeOp>,
+    /// call the dispatch functions from inside a worker of another pool of this size
+    #[serde(default)]
+    pub from_pool: Option<usize>,
+}
+
+#[derive(Clone, Copy, Debug, Serialize, Deserialize, PartialEq, Eq)]
+pub enum LifeOp {
+    /// remove a logical resource from the world
+    Remove(usize),
+    /// call `Dispatcher::setup` again
+    Setup,
+    /// overwrite a logical resource with a sentinel value
+    Put(usize),
 }
 
 /// Static description of one registered system, derived from the registration sequence.
@@ -491,6 +507,8 @@ pub fn gen_scenario(seed: u64, cfg: &GenCfg) -> Scenario {
         fine_points: rng.chance(1, 3),
         hash_seed: rng.next_u64(),
         asyncd: false,
+        lifecycle: vec![],
+        from_pool: None,
     }
 }
 
